@@ -163,3 +163,41 @@ Proof.
 Qed.
 
 Print Assumptions sched_check_sound.
+
+(* ------------------------------------------------------------------ the crash check *)
+Theorem crash_check_sound c setup prog events seen0 inflight final :
+  crash_check c init_st setup prog events seen0 inflight final = -1 ->
+  exists su p sch,
+    let cf := exec (init_config init_st (prog_fun [p] su)) (sch ++ [Kill 0]) in
+    Inv refs Winv cf /\ Winv (db cf) /\ (forall g, In g (refs (db cf)) -> files cf g = FDone) /\
+    outcomes_match_upto (c_done (cl cf 0)) seen0 inflight = true /\ disk_matches cf final = true.
+Proof.
+  unfold crash_check. intros H.
+  destruct (compile_all c setup) as [su|] eqn:Hsu; [|discriminate].
+  destruct (compile_all c prog) as [p|] eqn:Hp; [|discriminate].
+  set (c0 := init_config init_st (prog_fun [p] su)) in *.
+  destruct (negb (finished (solo _ c0 1) 1)); [discriminate|].
+  destruct (feed _ 0 events) as [c2|k] eqn:F.
+  - destruct (solo_exec (20 * S (length su)) c0 1) as [s1 H1].
+    destruct (feed_exec _ _ _ _ F) as [s2 H2].
+    destruct (settle_exec SILENT_FUEL c2 0) as [s3 H3].
+    destruct (outcomes_match_upto _ seen0 inflight) eqn:O; [|discriminate].
+    destruct (disk_matches _ final) eqn:D; [|discriminate].
+    exists su, p, (s1 ++ s2 ++ s3). cbv zeta.
+    assert (E : exec c0 ((s1 ++ s2 ++ s3) ++ [Kill 0]) = crash (settle SILENT_FUEL c2 0) 0).
+    { rewrite <- !exec_app, H1, H2, H3. reflexivity. }
+    unfold c0 in E. rewrite E.
+    assert (I : Inv refs Winv (crash (settle SILENT_FUEL c2 0) 0)).
+    { rewrite <- E. apply inv_exec, inv_init.
+      - apply sinv_init.
+      - reflexivity.
+      - apply prog_fun_ok; [constructor; [eapply compile_all_ok; exact Hp|constructor]|eapply compile_all_ok; exact Hsu]. }
+    split; [exact I|]. split; [apply (@i_dinv _ _ _ _ _ I)|]. split; [apply (@i_ref _ _ _ _ _ I)|]. split; assumption.
+  - exfalso. revert H F. generalize (solo (20 * S (length su)) c0 1). intros cc H F.
+    assert (K : forall l (x : mconfig) n k, 0 <= n -> feed x n l = inr k -> 0 <= k).
+    { induction l as [|[i t] r IHl]; intros x n k0 Hn Hf; cbn [feed] in Hf; [discriminate|].
+      destruct (visible SILENT_FUEL x i t) as [m|]; [apply (IHl m (n + 1)); [lia|exact Hf]|inversion Hf; lia]. }
+    specialize (K _ _ _ _ (Z.le_refl 0) F). lia.
+Qed.
+
+Print Assumptions crash_check_sound.
